@@ -153,6 +153,16 @@ class Arr:
     def copy(self):
         return Arr(self.a)
 
+    # in-place operators mutate the array object (numpy semantics), so aliasing with the caller's array is visible
+    def _inplace(self, r):
+        self.a = list(r.a)
+        return self
+
+    def __iadd__(self, o): return self._inplace(self + o)
+    def __isub__(self, o): return self._inplace(self - o)
+    def __imul__(self, o): return self._inplace(self * o)
+    def __itruediv__(self, o): return self._inplace(self / o)
+
     def astype(self, t):
         return Arr([t(v) if _conc(v) else v for v in self.a])
 
@@ -729,7 +739,12 @@ def array(x, dtype=None):      # noqa: F811
     return r
 
 
-asarray = array
+def asarray(x, dtype=None):
+    """numpy.asarray: no copy when the input is already an array of the requested type"""
+    if isinstance(x, Arr) and (dtype is None or (_is_float_dtype(dtype) and not any(
+            (isinstance(v, int) and not isinstance(v, bool)) or (isinstance(v, SV) and z3.is_int(v.e)) for v in x.a))):
+        return x
+    return array(x, dtype)
 
 
 def argsort(x, kind=None, **kw):
